@@ -158,5 +158,157 @@ inline std::string numberLike(Rng& r, char dec, char sci)
   }
   return s;
 }
+// ---------------------------------------------------------------- grammar-aware seeds (C16)
+inline std::string seedWord(Rng& r)
+{
+  static const std::string a = "abcxyz012._-";
+  return randomString(r, a, 1, 4);
+}
+inline std::string seedProcedure(Rng& r, int depth)
+{
+  std::string s = seedWord(r) + "(";
+  size_t n = r.below(5);
+  for (size_t i = 0; i < n; ++i)
+  {
+    if (i) s += r.chance(1, 6) ? ", " : ",";
+    s += seedWord(r) + "=";
+    if (depth > 0 && r.chance(1, 3)) s += seedProcedure(r, depth - 1);
+    else if (r.chance(1, 4)) s += numberLike(r, '.', 'e');
+    else s += seedWord(r);
+  }
+  return s + ")";
+}
+inline std::string seedDistribution(Rng& r, int depth)
+{
+  static const char* fams[] = {"Gamma", "Gaussian", "Beta", "Exponential", "TruncExponential", "Uniform", "Constant", "Simple", "Invariant", "Mixture", "Foo"};
+  std::string f = fams[r.below(11)];
+  auto num = [&]() { return std::to_string(r.range(0, 40)) + (r.coin() ? "." + std::to_string(r.range(0, 99)) : ""); };
+  if (f == "Constant") return f + "(value=" + num() + ")";
+  if (f == "Simple")
+  {
+    size_t n = 1 + r.below(4);
+    std::string v = "(", p = "(";
+    for (size_t i = 0; i < n; ++i)
+    {
+      v += (i ? "," : "") + num();
+      p += (i ? "," : "") + std::string("0.") + std::to_string(r.range(1, 9));
+    }
+    std::string s = f + "(values=" + v + "),probas=" + p + ")";
+    if (r.chance(1, 3)) s += ",ranges=(V1[" + num() + ";" + num() + "])";
+    return s + ")";
+  }
+  if (f == "Invariant" && depth > 0) return f + "(dist=" + seedDistribution(r, depth - 1) + ",p=0." + std::to_string(r.range(1, 9)) + ")";
+  if (f == "Mixture" && depth > 0)
+    return f + "(probas=(0.5,0.5),dist1=" + seedDistribution(r, depth - 1) + ",dist2=" + seedDistribution(r, depth - 1) + ")";
+  std::string s = f + "(n=" + std::to_string(r.range(0, 9));
+  static const char* keys[] = {"alpha", "beta", "mu", "sigma", "lambda", "tp", "begin", "end", "offset", "median"};
+  size_t k = r.below(4);
+  for (size_t i = 0; i < k; ++i) s += std::string(",") + keys[r.below(10)] + "=" + num();
+  return s + ")";
+}
+inline std::string seedFormula(Rng& r, int depth)
+{
+  if (depth <= 0 || r.chance(1, 3))
+  {
+    if (r.coin()) return numberLike(r, '.', 'e');
+    return r.coin() ? "f" : "x1";
+  }
+  switch (r.below(6))
+  {
+  case 0: return "(" + seedFormula(r, depth - 1) + ")";
+  case 1: return "exp(" + seedFormula(r, depth - 1) + ")";
+  case 2: return "log(" + seedFormula(r, depth - 1) + ")";
+  case 3: return "-" + seedFormula(r, depth - 1);
+  default:
+  {
+    static const char ops[] = "+-*/";
+    return seedFormula(r, depth - 1) + ops[r.below(4)] + seedFormula(r, depth - 1);
+  }
+  }
+}
+inline std::string seedInterval(Rng& r)
+{
+  std::string s;
+  s += r.coin() ? '[' : ']';
+  s += r.chance(1, 5) ? "-inf" : numberLike(r, '.', 'e');
+  s += ';';
+  s += r.chance(1, 5) ? "inf" : numberLike(r, '.', 'e');
+  s += r.coin() ? ']' : '[';
+  return s;
+}
+inline std::string seedTableText(Rng& r, char sep)
+{
+  size_t nc = 1 + r.below(4), nr = r.below(5);
+  bool header = r.coin(), rn = r.chance(1, 3);
+  std::string s;
+  if (header)
+  {
+    for (size_t j = 0; j < nc; ++j) s += (j ? std::string(1, sep) : "") + "c" + std::to_string(j);
+    s += "\n";
+  }
+  for (size_t i = 0; i < nr; ++i)
+  {
+    if (rn) s += "r" + std::to_string(r.chance(1, 8) ? 0 : i) + sep;
+    size_t m = r.chance(1, 8) ? r.below(6) : nc;
+    for (size_t j = 0; j < m; ++j) s += (j ? std::string(1, sep) : "") + (r.chance(1, 8) ? "" : seedWord(r));
+    s += r.chance(1, 10) ? "\n\n" : "\n";
+  }
+  return s;
+}
+inline std::string seedOptions(Rng& r)
+{
+  std::string s;
+  size_t n = 1 + r.below(6);
+  static const char* names[] = {"a", "b", "c", "param", "x.y"};
+  for (size_t i = 0; i < n; ++i)
+  {
+    std::string v;
+    size_t k = r.below(4);
+    for (size_t j = 0; j < k; ++j)
+    {
+      switch (r.below(6))
+      {
+      case 0: v += std::string("$(") + names[r.below(5)] + ")"; break;
+      case 1: v += "$(" ; break;
+      case 2: v += " # comment"; break;
+      case 3: v += "/* c */"; break;
+      case 4: v += "// c"; break;
+      default: v += seedWord(r);
+      }
+    }
+    s += std::string(names[r.below(5)]) + (r.chance(1, 10) ? "" : "=") + v;
+    if (r.chance(1, 5)) s += "\\";
+    s += "\n";
+  }
+  return s;
+}
+inline std::string seedPath(Rng& r)
+{
+  std::string s;
+  size_t n = r.below(5);
+  for (size_t i = 0; i < n; ++i)
+  {
+    if (r.chance(2, 3)) s += "/";
+    s += seedWord(r);
+  }
+  if (r.coin()) s += "." + seedWord(r);
+  return s;
+}
+
+// grow a seed up to maxLen bytes by repeating / nesting pieces of itself
+inline std::string inflate(Rng& r, std::string s, size_t maxLen)
+{
+  if (s.empty()) return s;
+  size_t target = 1 + r.below(maxLen);
+  while (s.size() < target && s.size() < maxLen)
+  {
+    size_t a = r.below(s.size()), l = 1 + r.below(s.size() - a);
+    std::string piece = s.substr(a, l);
+    size_t at = r.below(s.size() + 1);
+    if (s.size() + piece.size() > maxLen) break;
+    s.insert(at, piece);
+  }
+  return s;
+}
 } // namespace tg
 #endif
